@@ -798,6 +798,21 @@ def _classify_loop(F, f, S, n):
             lv = strip_all(x["c"][0])
         elif x.get("k") == "CXXOperatorCallExpr" and x.get("op") in ("++", "--"):
             lv = strip_all(x["c"][1])
+        if lv is None and x.get("k") in ("CXXOperatorCallExpr", "BinaryOperator") and x.get("op") == "=":
+            # it = container.find(++it, end, key): the iterator moves strictly forward to the next match or to end()
+            ops_ = x["c"][1:] if x["k"] == "CXXOperatorCallExpr" else x["c"]
+            tgt_, rhs_ = strip_all(ops_[0]), ops_[1]
+            if tgt_ is not None and tgt_.get("k") == "DeclRefExpr" and not _assigned_in(body, tgt_["id"]):
+                adv = any(y.get("k") in ("UnaryOperator", "CXXOperatorCallExpr") and y.get("op") == "++" and
+                          any(z.get("k") == "DeclRefExpr" and z.get("id") == tgt_["id"] for z in walk(y)) for y in walk(rhs_))
+                fnd = any(is_call(y) and re.search(r"::find$", str(y.get("fn") or "")) for y in walk(rhs_))
+                if adv and fnd and c.get("k") in ("BinaryOperator", "CXXOperatorCallExpr") and c.get("op") == "!=":
+                    cops = c["c"] if c["k"] == "BinaryOperator" else c["c"][1:]
+                    l_, r_ = core_ref(cops[0]), core_ref(cops[1])
+                    if l_.get("k") == "DeclRefExpr" and l_.get("id") == tgt_["id"] and is_call(r_) and \
+                            re.search(r"::(c?end)$", r_.get("fn") or ""):
+                        return "find-scanner (for)"
+            return None
         if lv is None or lv.get("k") != "DeclRefExpr":
             return None
         vid = lv["id"]
